@@ -681,19 +681,22 @@ Section Ops.
     destruct (get_reg s1 (hreg h)) as [r|]; [destruct (r_resv r)|]; rewrite ?set_resv_len; unfold s1; rewrite truncate_reg_len; lia.
   Qed.
 
+  Lemma raw_stream_new a b : (b = 1 -> incl (acts s a) A) -> RawA (fst (ex_stream_new s i a b)).
+  Proof.
+    intros Ha. unfold ex_stream_new. destruct (slot_k s i 4) as [hs|] eqn:E; [|auto with c16]. destruct (Nat.eqb_spec b 1) as [Eb|Eb].
+    - destruct (slot_k s a 4) as [hs2|] eqn:E2; [|auto with c16]. cbn [fst].
+      apply rawA_push_slot; [apply rawA_refl|]. apply AllOk_refs.
+      intros h Hh. apply in_app_or in Hh as [Hh|Hh]; [apply (slot_k_AllOk _ _ _ Hi E h Hh)|apply (slot_k_AllOk _ _ _ (Ha Eb) E2 h Hh)].
+    - cbn [fst]. apply rawA_push_slot; [apply rawA_refl|]. apply AllOk_refs. exact (slot_k_AllOk _ _ _ Hi E).
+  Qed.
+
   (* operations with a second operand slot *)
   Section Binary.
   Variable a : nat.
   Hypothesis Ha : incl (acts s a) A.
 
-  Lemma raw_stream_new b : RawA (fst (ex_stream_new s i a b)).
-  Proof.
-    unfold ex_stream_new. destruct (slot_k s i 4) as [hs|] eqn:E; [|auto with c16]. destruct (b =? 1).
-    - destruct (slot_k s a 4) as [hs2|] eqn:E2; [|auto with c16]. cbn [fst].
-      apply rawA_push_slot; [apply rawA_refl|]. apply AllOk_refs.
-      intros h Hh. apply in_app_or in Hh as [Hh|Hh]; [apply (slot_k_AllOk _ _ _ Hi E h Hh)|apply (slot_k_AllOk _ _ _ Ha E2 h Hh)].
-    - cbn [fst]. apply rawA_push_slot; [apply rawA_refl|]. apply AllOk_refs. exact (slot_k_AllOk _ _ _ Hi E).
-  Qed.
+  Lemma raw_stream_new_c b : RawA (fst (ex_stream_new s i a b)).
+  Proof. Abort.
 
   Hypothesis Hta : In a T.
   Lemma raw_wrap_arr b : RawA (fst (ex_wrap_arr s i a b)).
@@ -718,11 +721,19 @@ Section Ops.
 End Ops.
 
 (* the references an operation may duplicate / the slots it may overwrite *)
-Definition is_binary (code : nat) : bool := (code =? 11) || (code =? 13) || (code =? 23).
 Definition opA (s : state) (p : op) : list nat :=
-  acts s (o_a p) ++ (if is_binary (o_code p) then acts s (o_b p) else []).
+  match o_code p with
+  | 0 | 1 | 2 => []
+  | 11 | 13 => acts s (o_a p) ++ acts s (o_b p)
+  | 23 => acts s (o_a p) ++ (if o_c p =? 1 then acts s (o_b p) else [])
+  | _ => acts s (o_a p)
+  end.
 Definition opT (p : op) : list nat :=
-  o_a p :: (if (o_code p =? 11) || (o_code p =? 13) then [o_b p] else []).
+  match o_code p with
+  | 0 | 1 | 2 => []
+  | 11 | 13 => [o_a p; o_b p]
+  | _ => [o_a p]
+  end.
 
 Lemma acts_incl s i : incl (acts s i) (all_refs s).
 Proof.
@@ -733,22 +744,23 @@ Proof.
 Qed.
 Lemma opA_incl s p : incl (opA s p) (all_refs s).
 Proof.
-  unfold opA. apply incl_app; [apply acts_incl|]. destruct (is_binary _); [apply acts_incl|intros ? []].
+  unfold opA. destruct (o_code p) as [|[|[|[|[|[|[|[|[|[|[|[|[|[|[|[|[|[|[|[|[|[|[|[|c]]]]]]]]]]]]]]]]]]]]]]]];
+    try (intros ? []); try apply acts_incl; apply incl_app; try apply acts_incl; destruct (o_c p =? 1); [apply acts_incl|intros ? []].
 Qed.
 
 Theorem exec_rawA s p : Inv s -> RawA s (opA s p) (opT p) (fst (exec s p)).
 Proof.
-  intros I. unfold exec, opA, opT. destruct p as [cd a b c tid data zb zc]. cbn [o_code o_a o_b o_c o_data o_zb o_zc].
+  intros I. pose proof (opA_incl s p) as HA. revert HA.
+  unfold exec, opA, opT. destruct p as [cd a b c tid data zb zc]. cbn [o_code o_a o_b o_c o_data o_zb o_zc].
   do 26 (destruct cd as [|cd];
-    [cbn [is_binary Nat.eqb orb];
+    [intros HA;
      first [apply raw_new_std | apply raw_new_cust | apply raw_new_mut | apply raw_clone | apply raw_slice | apply raw_drop
            | apply raw_into_mutable | apply raw_freeze | apply raw_into_vec | apply raw_wrap_arr | apply raw_wrap_bits
            | apply raw_wrap_barr | apply raw_unary | apply raw_finish | apply raw_write | apply raw_bit_assign
-           | apply raw_ex_export | apply raw_ex_import | apply raw_claim | apply raw_stream_new | apply raw_stream_next
+           | apply raw_ex_export | apply raw_ex_import | apply raw_claim | (apply raw_stream_new; [| |intros ->]) | apply raw_stream_next
            | apply raw_ex_truncate | (destruct (slot_k s a 2); apply raw_write)];
-     auto using opA_incl with datatypes;
-     try (apply incl_app; [apply acts_incl|try apply acts_incl; intros ? []])|]).
-  apply rawA_refl.
+     auto with datatypes|]).
+  intros HA. apply rawA_refl; auto.
 Qed.
 
 Theorem exec_raw s p : Inv s -> Raw s (fst (exec s p)).
